@@ -244,7 +244,9 @@ func reifyMap(opts *options, to reflect.Value, from *Config, validators []valida
 			return err
 		}
 		if v.IsValid() {
-			to.SetMapIndex(key, v)
+			// merging into an entry held by pointer gives the value the
+			// pointer leads to (like for struct fields, see reifyGetField)
+			to.SetMapIndex(key, pointerize(to.Type().Elem(), v.Type(), v))
 		}
 	}
 
@@ -650,7 +652,7 @@ func reifyDoArray(
 				return reflect.Value{}, err
 			}
 			if v.IsValid() {
-				to.Index(idx).Set(v)
+				to.Index(idx).Set(pointerize(to.Type().Elem(), v.Type(), v))
 			}
 		} else {
 			if err := tryRecursiveValidate(to.Index(idx), opts.opts, nil); err != nil {
